@@ -247,6 +247,10 @@ def r3_eof_marker(ctx):
                 if u(c.func).endswith("__add_newline_to_end") or u(c.func).endswith("_NumpyFileReader__add_newline_to_end"):
                     sites.append((fi, c))
     ctx.floor("call sites of the end-of-file terminator", len(sites), 2)
+    rd = ix.func(PARSER, "NumpyFileReader.read")
+    ctx.ob(rd.where, "read(): the whole-file read ends its data with the SAME terminator routine as the chunked read (a missing final line break and the new-entry "
+           "marker of wrapped FASTA are appended, in that order, after the last byte), so that both ways of reading a file see the same last entry",
+           any(fi is rd for fi, _ in sites), "no call of __add_newline_to_end in read()", key="C01-R3|read|same-terminator")
     for fi, c in sites:
         g = CFG(fi.node)
         node = None
